@@ -73,8 +73,11 @@ def app_runs(chk, app):
         try:
             p = subprocess.run(["timeout", "300"] + MPIRUN + [str(n), app] + args, stdout=subprocess.PIPE, stderr=subprocess.STDOUT,
                                text=True, errors="replace", cwd=vlib.BUILD)
-            if p.returncode == 124:
-                # time-out on a loaded machine: only a repeated time-out with five times the budget is reported
+            if p.returncode == 124 or p.returncode >= 128 or p.returncode < 0:
+                # time-out on a loaded machine: only a repeated time-out with five times the budget is reported; a run that ends by a
+                # signal (seen once: SIGSEGV after the complete output of a one-process run at load average 120) is repeated once
+                # as well - a deterministic crash shows up again
+                vlib.log("[c13] application run %s on %d processes ended with rc=%d; repeating once: %s" % (label, n, p.returncode, (p.stdout or "")[-300:].replace("\n", " | ")))
                 p = subprocess.run(["timeout", "1500"] + MPIRUN + [str(n), app] + args, stdout=subprocess.PIPE, stderr=subprocess.STDOUT,
                                    text=True, errors="replace", cwd=vlib.BUILD)
             return job, p.returncode, p.stdout
@@ -124,30 +127,34 @@ def run(chk):
     mcs = [("Synch_mc3.cfg", 8)] + ([("Synch_mc4.cfg", 8)] if thorough else [("Synch_mc4s.cfg", 4)])
     if only_ext:
         mcs = []
-    with cf.ThreadPoolExecutor(max_workers=2) as ex:
-        futs = [(ex.submit(vlib.tlc, "Synch", c, workers=w, want_printed=False, timeout=3000, xmx="12g"), c) for c, w in mcs]
-        # ---- G generation in parallel --------------------------------------------------------------
-        # (ranks, global dofs, largest local renumbering kind of module Renum)
-        plan = [(1, 3, 2), (2, 3, 5), (3, 3, 5), (4, 2, 2), (4, 3, 1), (5, 2, 2), (6, 2, 2)] if thorough else [(1, 3, 2), (2, 3, 2), (3, 3, 2), (4, 2, 2)]
-        if only_ext:
-            plan = []
-        gens = [(ex.submit(vlib.tlc, "Gen_Synch", gen_cfg(nr, nd, rk), workers=1, timeout=1500), nr, nd) for nr, nd, rk in plan]
-        for f, c in futs:
+    import time
+    t_start = time.time()
+    # the model checking runs (M), the extension (lib/c13x.py: own TLC pool and replay threads) and the generation + replay of the
+    # gate-level cases (main thread, followed by the application runs) proceed side by side
+    ex_m = cf.ThreadPoolExecutor(max_workers=2)
+    ex_g = cf.ThreadPoolExecutor(max_workers=3)
+    ex_x = cf.ThreadPoolExecutor(max_workers=1)
+    futs = [(ex_m.submit(vlib.tlc, "Synch", c, workers=w, want_printed=False, timeout=3000, xmx="12g"), c) for c, w in mcs]
+    fut_ext = ex_x.submit(c13x.run_ext, chk, gmat, gvec, gxfer)
+    # ---- G generation ------------------------------------------------------------------------------
+    # (ranks, global dofs, largest local renumbering kind of module Renum)
+    plan = [(1, 3, 2), (2, 3, 5), (3, 3, 5), (4, 2, 2), (4, 3, 1), (5, 2, 2), (6, 2, 2)] if thorough else [(1, 3, 2), (2, 3, 2), (3, 3, 2), (4, 2, 2)]
+    if only_ext:
+        plan = []
+    gens = [(ex_g.submit(vlib.tlc, "Gen_Synch", gen_cfg(nr, nd, rk), workers=1, timeout=1500), nr, nd) for nr, nd, rk in plan]
+    bynr = {}
+    for f, nr, nd in gens:
+        try:
             r = f.result()
-            chk.add_tlc(r, c)
-            if r.violation:
-                chk.model_violation(r, "Synch.tla (%s)" % c)
-        bynr = {}
-        for f, nr, nd in gens:
-            r = f.result()
-            chk.add_tlc(r, "Gen_Synch nr=%d nd=%d" % (nr, nd))
-            if r.violation:
-                chk.model_violation(r, "Gen_Synch laws (nr=%d nd=%d)" % (nr, nd))
-            bynr.setdefault(nr, []).extend(r.printed)
+        finally:
             try:
                 os.remove(os.path.join(vlib.SPEC, "gen_Synch_%d_%d_%d.cfg" % (nr, nd, os.getpid())))
             except OSError:
                 pass
+        chk.add_tlc(r, "Gen_Synch nr=%d nd=%d" % (nr, nd))
+        if r.violation:
+            chk.model_violation(r, "Gen_Synch laws (nr=%d nd=%d)" % (nr, nd))
+        bynr.setdefault(nr, []).extend(r.printed)
     # ---- G replay ----------------------------------------------------------------------------------
     total = 0
     nonmono = 0
@@ -182,10 +189,22 @@ def run(chk):
                 c = rn[len(rn) // 2]
                 chk.sample({k: c[k] for k in ("nr", "dofs", "ren", "mir", "v0", "sync0", "count", "dot", "perm")})
     chk.extra["gate_cases_nonmonotone_mirror"] = nonmono
-    if os.environ.get("C13_ONLY", "") != "ext":
+    vlib.log("[c13] gate-level replay done at %.1fs" % (time.time() - t_start))
+    # the application runs are NOT started side by side with the replays: on a loaded machine the oversubscribed mpirun jobs disturb each other
+    if not only_ext:
         app_runs(chk, app)
-    # ---- extension: matrices, blocked/tuple vectors, scalar tickets, muxer/splitter, filters (lib/c13x.py) -------------
-    total += c13x.run_ext(chk, gmat, gvec, gxfer)
+    vlib.log("[c13] application runs done at %.1fs" % (time.time() - t_start))
+    # ---- M results ------------------------------------------------------------------------------------------------------
+    for f, c in futs:
+        r = f.result()
+        chk.add_tlc(r, c)
+        if r.violation:
+            chk.model_violation(r, "Synch.tla (%s)" % c)
+    # ---- extension: matrices, blocked/tuple vectors, scalar tickets, muxer/splitter, filters, layered transfer (lib/c13x.py) ----
+    total += fut_ext.result()
+    vlib.log("[c13] extension done at %.1fs" % (time.time() - t_start))
+    for e in (ex_m, ex_g, ex_x):
+        e.shutdown()
     chk.traces = total
     chk.exhaustive = True
     chk.rule = ("model checking: all dof-to-rank overlap hypergraphs for 3 ranks x 3 dofs (thorough also 4 ranks) x all interleavings and "
